@@ -2,6 +2,7 @@
   C13 — first-n reads are prefixes of full reads.
 -/
 import BS.Proofs.ReadRange
+import BS.Proofs.Paging
 
 namespace BS.Props.C13
 open BS BS.Impl
@@ -53,6 +54,24 @@ theorem processor_takes_prefix (n : Nat) (hn : 1 ≤ n) (xs : List Entry) :
      | .error (.halted c) => c.out
      | .error _ => []) = xs.take n :=
   fold_firstN_out n hn xs
+
+/-- **Paging visits every line exactly once, for every page size.**  In every state
+satisfying the session invariant for a non-empty history, the loop of examples/read.rs —
+`read_first_n(n, start..)`, then continue from one past the last timestamp seen, stop on
+an empty page or `StartAfterData` or when the largest possible timestamp was seen — ends
+(within `len + 3` rounds) having collected exactly the history, in order, for every page
+size `n ≥ 1` (also larger than the series). -/
+theorem paging_visits_every_line_once (hdr ihdr : Bytes) (dir : Dir) (s : Sess) (e : Entry) (es : List Entry)
+    (hinv : SessInv hdr ihdr dir s (e :: es)) (n : Nat) (hn : 1 ≤ n) :
+    pageLoop dir s n ((e :: es).length + 3) e.ts [] = .ok (e :: es) := by
+  have := pageLoop_all hdr ihdr dir s e es hinv n hn ((e :: es).length + 3) 0 e.ts (by simp) (by simp) (fun _ => rfl)
+    (by simp) (by
+      intro x hx
+      simp only [List.drop_zero, List.mem_cons] at hx
+      rcases hx with rfl | hx
+      · exact Nat.le_refl _
+      · exact Nat.le_of_lt ((List.pairwise_cons.mp hinv.valid.1).1 x hx))
+  simpa using this
 
 example : ([⟨1, []⟩, ⟨2, []⟩, ⟨3, []⟩] : List Entry).take 2 = [⟨1, []⟩, ⟨2, []⟩] := by simp
 
